@@ -270,6 +270,15 @@ def allRefsUnder (s : State) (tparent : Option Id) : List Id → Bool
 
 /-! ## reparent -/
 
+/-- `parent ? parent->cx : NULL` -/
+def cxOf (s : State) (p : Option Id) : Nat :=
+  match p with
+  | none => 0
+  | some p => match s.get p with
+    | some o => o.cx
+    | none => 0
+
+
 /-- `move_child(t, tnew, told)`: list_del, add_child, parent, move_memlimit -/
 def moveChild (cfg : Cfg) (s : State) (t : Id) (tnew told : Option Id) : State :=
   match s.get t with
@@ -298,10 +307,7 @@ def reparent (cfg : Cfg) (s : State) (oldp newp : Option Id) (o : Id) : State ×
         | none => (s, false)
         | some tb =>
           -- check cx change
-          let cxnew : Nat := match tnew with
-            | some n => (match s.get n with | some nb => nb.cx | none => 0)
-            | none => 0
-          if tb.cx ≠ cxnew then (s, false)
+          if tb.cx ≠ cxOf s tnew then (s, false)
           else (moveChild cfg s t tnew told, true)
 
 /-- first non-pending ancestor; outer `none` = fuel exhausted -/
@@ -479,12 +485,21 @@ def hdrAlloc (cfg : Cfg) (s : State) (cx : Nat) (parent : Option Id) (len : Nat)
         let s2 := s1.push { parent := parent, kind := kind, size := len, cx := cx, useLim := use }
         (addChild s2 parent id prepend, true)
 
-def cxOf (s : State) (p : Option Id) : Nat :=
-  match p with
-  | none => 0
-  | some p => match s.get p with
-    | some o => o.cx
-    | none => 0
+/-- `talloc_set_memlimit`, "configure": max, cur, flags; the repaired code then charges the
+children that exist already and passes the USE flag down to them -/
+def setLimitConfigure (cfg : Cfg) (s : State) (o l : Id) (max : Nat) : State :=
+  let s2 := s.modify l fun x => { x with lmax := max, lcur := 0 }
+  let s3 := s2.modify o fun x => { x with useLim := true, hasLim := true }
+  if cfg.fixSet then
+    let r := (childrenOf s3 o).foldl
+      (fun (acc : State × Nat) c =>
+        match acc.1.get c with
+        | some cb =>
+          if isLimit cb then acc
+          else ((walk cfg acc.1.fuel acc.1 c WOp.set).1, acc.2 + (walk cfg acc.1.fuel acc.1 c WOp.set).2)
+        | none => acc) (s3, 0)
+    r.1.modify l fun x => { x with lcur := r.2 }
+  else s3
 
 /-- `talloc_set_memlimit(ptr, max_size)` -/
 def setLimit (cfg : Cfg) (s : State) (o : Id) (max : Nat) (fail : Bool) : State × Int :=
@@ -498,31 +513,12 @@ def setLimit (cfg : Cfg) (s : State) (o : Id) (max : Nat) (fail : Bool) : State 
       | some l => ((run cfg s1.fuel s1 (.free l)).1, 0)
       | none => (s1, 0)
     else
-      let (s1, l?) : State × Option Id :=
-        match lim? with
-        | some l => (s, some l)
-        | none =>
-          let id := s.heap.length
-          let (s1, ok) := hdrAlloc cfg s ob.cx (some o) LIMSIZE true .limit fail
-          (s1, if ok then some id else none)
-      match l? with
-      | none => (s1, -1)
-      | some l =>
-        let s2 := s1.modify l fun x => { x with lmax := max, lcur := 0 }
-        let s3 := s2.modify o fun x => { x with useLim := true, hasLim := true }
-        if cfg.fixSet then
-          -- charge existing children, pass flag to them
-          let r := (childrenOf s3 o).foldl
-            (fun (acc : State × Nat) c =>
-              match acc.1.get c with
-              | some cb =>
-                if isLimit cb then acc
-                else
-                  let r := walk cfg acc.1.fuel acc.1 c WOp.set
-                  (r.1, acc.2 + r.2)
-              | none => acc) (s3, 0)
-          (r.1.modify l fun x => { x with lcur := r.2 }, 0)
-        else (s3, 0)
+      match lim? with
+      | some l => (setLimitConfigure cfg s o l max, 0)
+      | none =>
+        -- allocate new object
+        let r := hdrAlloc cfg s ob.cx (some o) LIMSIZE true .limit fail
+        if r.2 then (setLimitConfigure cfg r.1 o s.heap.length max, 0) else (r.1, -1)
 
 def step (cfg : Cfg) (s : State) : Op → State × Int
   | .alloc parent size fromCx fail =>
